@@ -3,7 +3,7 @@
 import json, os, subprocess, tempfile, shutil, time, re
 
 SPEC_DIR = os.path.join(os.path.dirname(os.path.dirname(os.path.dirname(os.path.abspath(__file__)))), "spec")
-JAVA = ["java", "-XX:+UseParallelGC", "-Xss16m", "-cp",
+JAVA = ["java", "-Xss16m", "-cp",
         "/opt/veriftools/tla/tla2tools.jar:/opt/veriftools/tla/CommunityModules-deps.jar",
         "-DTLA-Library=" + SPEC_DIR]
 
@@ -72,7 +72,7 @@ def check_batch(lines, cfg_key, conns, props, workdir, tag, keep=False):
     write_module(workdir, "TC_" + tag, batch_consts(cfg_key, conns, long_names_of(lines), props))
     env = dict(os.environ, MBH_TRACE=tf, MBH_OUT=of)
     t0 = time.time()
-    cmd = JAVA + ["tlc2.TLC", "-workers", "1", "-metadir", os.path.join(workdir, "meta_" + tag),
+    cmd = JAVA[:1] + ["-XX:+UseSerialGC", "-Xmx3g"] + JAVA[1:] + ["tlc2.TLC", "-workers", "1", "-metadir", os.path.join(workdir, "meta_" + tag),
                   "-noGenerateSpecTE", "-config", "TC_%s.cfg" % tag, "TC_%s.tla" % tag]
     pr = subprocess.run(cmd, cwd=workdir, env=env, stdout=subprocess.PIPE, stderr=subprocess.STDOUT, text=True)
     wall = time.time() - t0
